@@ -10,18 +10,25 @@
    byte-exact generator correspondence and judged on the reference machine. *)
 From Coq Require Import ZArith List String Bool.
 From Gigue Require Import Types Bits Isa Enc GenTables Builder BuilderTies Samplers Generator Machine MachineLemmas
-  SplitProofs FragProofs GenLemmas ImageSem CtorSpec C12Defs C12Proofs GenWF GenWFProps Witness.
+  SplitProofs FragProofs GenLemmas ImageSem CtorSpec C12Defs C12Proofs GenWF GenWFProps SliceLemmas GenWF2 GenWF3 GenWF2Props Witness.
 Import ListNotations.
 Open Scope Z_scope.
 
 
-(* FULL statement (static part): every callee of a method has strictly smaller
-   call depth. *)
-Definition C06_calls_decrease_depth_statement : Prop :=
-  forall c script img, successful c script img ->
+(* PROVED (Layer A) for every accepted configuration, decision script and
+   emitted image: every callee of every method exists and has strictly smaller
+   call depth; hence the call graph is acyclic - no method reaches itself
+   directly or transitively.
+     reaches ms a b : b is a callee of a, or reachable through callees *)
+Theorem C06_calls_decrease_depth : forall c script img, successful c script img ->
   Forall (fun m => Forall (fun cal => match nth_error (im_methods img) cal with
                                       | Some cm => m_depth cm < m_depth m | None => False end) (m_callees m))
          (im_methods img).
+Proof. exact calls_decrease_depth. Qed.
+
+Theorem C06_call_graph_acyclic : forall c script img,
+  successful c script img -> forall id, ~ reaches (im_methods img) id id.
+Proof. exact call_graph_acyclic. Qed.
 
 (* PROVED for every accepted configuration, decision script and emitted image
    (Layer A): every direct jump and every branch of every method instruction
@@ -56,6 +63,8 @@ Theorem C06_switch_forward_partial : forall v L s P n moff hit cmp,
     (forall r, 0 <= r -> r <> cmp -> rget s' r = rget s r).
 Proof. exact switch_case_miss. Qed.
 
+Print Assumptions C06_calls_decrease_depth.
+Print Assumptions C06_call_graph_acyclic.
 Print Assumptions C06_no_backward_transfer.
 Print Assumptions C06_nonvacuous.
 Print Assumptions C06_possible_callees_lower_partial.
